@@ -173,7 +173,7 @@ def h_guard(c):
         del ports[2:]          # the module-level list outlives the call in CPython; restore it for the next replay
 
 
-@harness(["C04", "C10"], "demux.matches_session", functions=[SE + ".matches_session", QS + ".matches_session_dgram"],
+@harness(["C04", "C10", "C03"], "demux.matches_session", functions=[SE + ".matches_session", QS + ".matches_session_dgram"],
          cases=[("tls", False), ("tls", True), ("quic", False), ("quic", True)])
 def h_matches(c, kind, ipv6):
     """a packet belongs to a session iff its (src ip, src port, dst ip, dst port) equals the session's
